@@ -7,6 +7,7 @@ import (
 	"sort"
 	"strings"
 	"sync"
+	"sync/atomic"
 	"testing"
 	"time"
 
@@ -94,8 +95,10 @@ type obs struct {
 // the suffrage back on each call (always a fresh slice: the selector sorts in
 // place); dead = address that does not answer requests.
 type nodeSel struct {
-	w     *world
-	local base.LocalNode
+	w      *world
+	local  base.LocalNode
+	shared []base.Node // when set, GetNodesFunc returns this very slice on every call (as a cached suffrage does)
+	deadFn func() string
 	sel   *isaac.BaseProposalSelector
 	mu    sync.Mutex
 	o     obs
@@ -139,6 +142,9 @@ func (w *world) newNodeSel(local base.LocalNode, listing func() []int, dead stri
 		return n, err
 	}
 	args.GetNodesFunc = func(base.Height) ([]base.Node, bool, error) {
+		if ns.shared != nil {
+			return ns.shared, true, nil
+		}
 		perm := listing()
 		nodes := make([]base.Node, len(perm)) // fresh slice: the selector sorts in place
 		for i, p := range perm {
@@ -151,7 +157,7 @@ func (w *world) newNodeSel(local base.LocalNode, listing func() []int, dead stri
 		mu.Lock()
 		o.Asked = append(o.Asked, a)
 		mu.Unlock()
-		if a == dead {
+		if a == dead || (ns.deadFn != nil && a == ns.deadFn()) {
 			return nil, false, errors.New("dead node")
 		}
 		n, ok := w.byAddr[a]
@@ -268,7 +274,7 @@ func newWorld(r *vlib.Run, i int) *world {
 func TestC07(t *testing.T) {
 	r := vlib.Start(t, "C07", vlib.LevelExploration)
 	defer r.Finish()
-	r.SetRule("case = (suffrage of n real nodes with PRNG addresses, point, previous-block hash); per case the real BaseProposalSelector.Select (ProposerSelectFunc = BlockBasedProposerSelector.Select) runs once per permutation of the suffrage slice, each time as a different member being the local node; pass 2 repeats with the first proposer not answering; reuse phase: 4 nodes each keep ONE selector instance over an itinerary of 8-12 points (rounds of a height, next height, back) with the suffrage listed in a new order on every GetNodesFunc call, compared point by point; plus raw BlockBasedProposerSelector.Select calls; distinct = (n, point, hash, pass); non-trivial = n >= 2")
+	r.SetRule("case = (suffrage of n real nodes with PRNG addresses, point, previous-block hash); per case the real BaseProposalSelector.Select (ProposerSelectFunc = BlockBasedProposerSelector.Select) runs once per permutation of the suffrage slice, each time as a different member being the local node; pass 2 repeats with the first proposer not answering; cached-listing phase: GetNodesFunc returns one and the same slice on every call, one proposer request fails once on one node, which is then compared over 9 further points with a node that saw no failure (and the listing must still be the suffrage); reuse phase: 4 nodes each keep ONE selector instance over an itinerary of 8-12 points (rounds of a height, next height, back) with the suffrage listed in a new order on every GetNodesFunc call, compared point by point; plus raw BlockBasedProposerSelector.Select calls; distinct = (n, point, hash, pass); non-trivial = n >= 2")
 	r.Assume("suffrage addresses are pairwise distinct (a suffrage cannot hold one address twice)")
 	r.Assume("a Select that outlives its own MinProposerWait falls back to the local node by design; such runs are counted as timing fallbacks and not judged")
 
@@ -641,6 +647,193 @@ func TestC07(t *testing.T) {
 	r.Count("reuse_points_judged", reuseJudged)
 	r.Count("reuse_timing_fallbacks_not_judged", reuseFallbacks)
 	r.Set("reuse_instances_per_case", nInst)
+
+	// ---- cached listing: GetNodesFunc returns the same slice every time ------
+	// A running node hands the selector the node slice of its cached suffrage,
+	// the same object on every call. One proposer request fails once on node A;
+	// afterwards A must keep agreeing with node B, which saw no failure, for
+	// the same and for later points; and the listing A was given must still be
+	// the suffrage.
+	nShared := r.N(120, 2000)
+	const waitS = 1500 * time.Millisecond
+	type sharedRes struct {
+		w       *world
+		steps   []step
+		a, b    []obs
+		failed  string
+		corrupt string
+	}
+	sres := make([]*sharedRes, nShared)
+	ok = r.WithWatchdog(20*time.Minute, "cached-listing-selects", func() {
+		vlib.Parallel(nShared, 128, func(i int) {
+			var w *world
+			for k := 0; ; k++ {
+				w = newWorld(r, 300000+i*7+k)
+				if w.N >= 3 {
+					break
+				}
+			}
+			rng := r.Rand(7, i)
+			res := &sharedRes{w: w}
+			h0 := int64(10 + rng.Intn(1000))
+			mk := func(h int64, rd uint64) step {
+				b := make([]byte, 32)
+				rng.Read(b)
+				return step{base.RawPoint(h, rd), valuehash.NewBytes(b)}
+			}
+			first := mk(h0, 0)
+			res.steps = []step{first, first} // the failing call, then the same point again
+			for rd := uint64(1); rd <= 4; rd++ {
+				res.steps = append(res.steps, mk(h0, rd))
+			}
+			for rd := uint64(0); rd <= 3; rd++ {
+				res.steps = append(res.steps, mk(h0+1, rd))
+			}
+			listingOf := func(perm []int) []base.Node {
+				nodes := make([]base.Node, w.N)
+				for x, p := range perm {
+					nodes[x] = w.locals[p]
+				}
+				return nodes
+			}
+			check := func(nodes []base.Node) string {
+				seen := map[string]int{}
+				for _, n := range nodes {
+					if n == nil {
+						return "nil entry"
+					}
+					seen[n.Address().String()]++
+				}
+				var bad []string
+				for a := range w.byAddr {
+					if seen[a] != 1 {
+						bad = append(bad, fmt.Sprintf("%s x%d", a, seen[a]))
+					}
+				}
+				if len(nodes) != w.N {
+					bad = append(bad, fmt.Sprintf("len %d", len(nodes)))
+				}
+				sort.Strings(bad)
+				return strings.Join(bad, ", ")
+			}
+			r.Guard("BaseProposalSelector.Select", map[string]any{"n": w.N, "phase": "cached listing"}, func() {
+				// B: no failure; tells who the first proposer is
+				bi := rng.Intn(w.N)
+				nb := w.newNodeSel(w.locals[bi], nil, "", wait1, 50*time.Millisecond)
+				nb.shared = listingOf(rng.Perm(w.N))
+				res.b = make([]obs, len(res.steps))
+				res.b[0] = nb.do(res.steps[0].point, res.steps[0].prev)
+				primary := res.b[0].Proposer
+				// A: another member than the first proposer; its request to the first proposer fails during step 0 only
+				ai := rng.Intn(w.N)
+				for w.locals[ai].Address().String() == primary {
+					ai = (ai + 1) % w.N
+				}
+				var failing atomic.Value
+				failing.Store(primary)
+				res.failed = primary
+				na := w.newNodeSel(w.locals[ai], nil, "", waitS, 100*time.Millisecond)
+				na.deadFn = func() string { return failing.Load().(string) }
+				na.shared = listingOf(rng.Perm(w.N))
+				res.a = make([]obs, len(res.steps))
+				for si, st := range res.steps {
+					if si == 1 {
+						failing.Store("")
+					}
+					res.a[si] = na.do(st.point, st.prev)
+					if c := check(na.shared); c != "" && res.corrupt == "" {
+						res.corrupt = fmt.Sprintf("after call %d (%s): %s", si, st.point, c)
+					}
+					if si > 0 {
+						res.b[si] = nb.do(st.point, st.prev)
+					}
+					if c := check(nb.shared); c != "" && res.corrupt == "" {
+						res.corrupt = fmt.Sprintf("node without failure, after call %d: %s", si, c)
+					}
+				}
+			})
+			sres[i] = res
+		})
+	})
+	if !ok {
+		return
+	}
+	var sharedJudged, sharedFallbacks int
+	for _, res := range sres {
+		if res == nil || res.a == nil || res.b == nil {
+			continue
+		}
+		w := res.w
+		var itinerary []string
+		for _, x := range res.steps {
+			itinerary = append(itinerary, x.point.String())
+		}
+		wit := map[string]any{"n": w.N, "phase": "GetNodesFunc returns one cached slice", "itinerary": itinerary, "request_failed_once_to": res.failed, "node_with_failure": res.a, "node_without_failure": res.b}
+		r.Count("cached_listing_cases", 1)
+		if res.corrupt != "" {
+			r.Violation("BaseProposalSelector.Select:callers-suffrage-listing-altered", fmt.Sprintf("n=%d: the node slice handed over by GetNodesFunc is no longer the suffrage %s", w.N, res.corrupt), wit)
+		}
+		for si, st := range res.steps {
+			r.Case(fmt.Sprintf("cached|n=%d|%s|%s|step%d", w.N, st.point, st.prev, si))
+			r.Count("selects", 2)
+			a, b := res.a[si], res.b[si]
+			if a.Err != "" || b.Err != "" {
+				r.Violation("BaseProposalSelector.Select:error:cached-listing", fmt.Sprintf("n=%d point=%s: %s %s", w.N, st.point, a.Err, b.Err), wit)
+				continue
+			}
+			for _, o := range []obs{a, b} {
+				if _, in := w.byAddr[o.Proposer]; !in {
+					r.Violation("BaseProposalSelector.Select:proposer-not-a-member", fmt.Sprintf("n=%d: proposer %s is not in the suffrage", w.N, o.Proposer), wit)
+				}
+				if o.NonMember != "" {
+					r.Violation("BlockBasedProposerSelector.Select:result-not-in-input", fmt.Sprintf("n=%d: %s", w.N, o.NonMember), wit)
+				}
+			}
+			if si == 0 {
+				// the failing call: A falls back to another proposer by design
+				if a.Proposer == res.failed && a.Elapsed < waitS {
+					r.Violation("BaseProposalSelector.Select:dead-proposer-returned", fmt.Sprintf("n=%d: %s does not answer but is the proposer", w.N, res.failed), wit)
+				}
+				continue
+			}
+			abn := false
+			for _, o := range []obs{a, b} {
+				last := ""
+				if len(o.Selections) > 0 {
+					last = o.Selections[len(o.Selections)-1]
+				}
+				if len(o.Selections) != 1 || (o.Proposer == o.Local && last != o.Local) {
+					abn = true
+					wt := wait1
+					if o.Local == a.Local {
+						wt = waitS
+					}
+					if o.Elapsed < wt {
+						r.Violation("BaseProposalSelector.Select:live-node-dropped-without-timeout:cached-listing",
+							fmt.Sprintf("n=%d: local %s, selections %v, proposer %s after %s", w.N, o.Local, o.Selections, o.Proposer, o.Elapsed), wit)
+					}
+				}
+			}
+			if abn {
+				sharedFallbacks++
+				continue
+			}
+			sharedJudged++
+			if a.Proposer != b.Proposer {
+				when := "later-point"
+				if si == 1 {
+					when = "same-point-again"
+				}
+				r.Violation("BaseProposalSelector.Select:proposer-differs-after-one-failed-request:"+when,
+					fmt.Sprintf("n=%d point=%s (call %d): the node whose request to %s failed once now selects %s, a node that saw no failure selects %s", w.N, st.point, si, res.failed, a.Proposer, b.Proposer), wit)
+			}
+		}
+	}
+	r.Count("cached_listing_points_judged", sharedJudged)
+	r.Count("cached_listing_timing_fallbacks_not_judged", sharedFallbacks)
+	if sharedJudged < nShared*5 {
+		r.Inconclusive(fmt.Sprintf("cached-listing phase judged only %d points", sharedJudged))
+	}
 
 	// ---- raw selector: result is an element of its input -----------------
 	raw := isaac.NewBlockBasedProposerSelector()
